@@ -347,8 +347,24 @@ func oracleC15(r *Rng, n int, thorough bool, seeds []string) *OracleResult {
 			if c.kind == "reqoffer" && c.in.YourIPAddr.To4() == nil {
 				res.Tags["offer-yiaddr-not-ipv4"]++
 			}
-			fs = append(fs, checkDefaults(c, c.call(nil))...)
+			before := ""
+			if c.in != nil {
+				before = showPkt4(c.in)
+			}
+			base := c.call(nil)
+			fs = append(fs, checkDefaults(c, base)...)
 			full := c.call(c.mods())
+			// building from a packet leaves that packet alone: a second packet built
+			// from the same input equals the first (seeded change C15-6: WithHwAddr
+			// writing into the buffer WithReply shares with the request)
+			if c.in != nil {
+				if after := showPkt4(c.in); after != before {
+					fs = append(fs, clauseFail{"input-modified", "the input packet was " + before + " and is " + after + " after building from it"})
+				}
+				if again := c.call(nil); maskedShow(again) != maskedShow(base) {
+					fs = append(fs, clauseFail{"input-modified", "a second packet built from the same input is " + maskedShow(again) + ", the first was " + maskedShow(base)})
+				}
+			}
 			fs = append(fs, checkModifiersLast(c, full)...)
 			fs = append(fs, checkPrevails(c, full)...)
 			fs = append(fs, checkReuse(c, full)...)
